@@ -13,7 +13,7 @@ RULE = "exhaustive token-alphabet strings per entry point + Hypothesis random Un
 ASSUMPTIONS = [
     "documented outcomes: Color.parse -> value | ColorParseError; Style.parse -> value | StyleSyntaxError; markup.render / Text.from_markup -> value | MarkupError; "
     "Console.get_style -> value | MissingStyle; AnsiDecoder.decode, Text(s) (+ printing it), Console.print(s, markup=False) -> no exception",
-    "valid options for trees: documented types and ranges (paddings >= 0, widths >= 1, ratio >= 0, leading >= 0, columns added before rows); __rich__ casts are one level deep",
+    "valid options for trees: documented types and ranges (paddings >= 0, widths >= 1, ratio >= 1, leading >= 0, columns added before rows); __rich__ casts are one level deep",
     "non-termination is detected without a timer: a counting Console caps render() invocations per case",
     "strings are surrogate-free",
 ]
@@ -222,11 +222,11 @@ def syntax_leaf():
 
 class Trees(Part):
     name = "trees"
-    rule = ("trees as C01 but with the whole valid option space (column width/min_width/no_wrap, table width/min_width, overflow='ignore', ratio 0, "
+    rule = ("trees as C01 but with the whole valid option space (column width/min_width/no_wrap, table width/min_width, overflow='ignore', "
             "Panel/Align/Constrain/Columns/Bar widths, Syntax leaves with line ranges beyond the code) x W in 1..200: render(), print() and "
             "Measurement.get() return; non-trivial = W below the structural minimum or an explicit width option present")
-    budget = {"quick": (16, 300), "thorough": (16, 6000)}
-    chunk = 300
+    budget = {"quick": (16, 150), "thorough": (16, 6000)}
+    chunk = 150
 
     def strategy(self, tier):
         w = st.one_of(st.integers(1, 6), st.integers(1, 30), st.integers(1, 200))
